@@ -54,7 +54,7 @@ CHECKS = {
          'For contract+storage, two-node, transport-only-balance, reverse transport with costs, scaled and multi-commodity portfolios, boundary at first/middle/last step and 1-2 extra scenarios: the make_slp problem is exactly {x_p, z^s : F(x_p,z^s) for all s} with value the scenario mean, for all parameters and scenario prices; the property\'s bounds are consequences. Robust: recorded problem is max t, t <= -c_s.x, x in F.'),
 
  'C12': ('Q2 term-by-term identity of the lifted problems built for two main time units (rates x kappa, durations / kappa); Q3 embeddings against the reference model on DST / calendar-month grids with step lengths recomputed from UTC instants', '6 C12',
-         'Unit pairs h/d/min for storage (inflow, holding cost, max holding time), transport and contract with takes, Plant (ramp, last dispatch, runtime/downtime, running costs, fuel), scaled asset (fix costs) and split problems: identical problems for all parameter values incl. discount atoms. Irregular grids (CET/US-Eastern DST days, months): limits = rate x actual step length, holding cost and discounting follow real elapsed time, for all parameters and prices.'),
+         'Unit pairs h/d/min for storage (inflow, holding cost, max holding time), transport and contract with takes, Plant (ramp, last dispatch, runtime/downtime, running costs, fuel), scaled asset (fix costs), assets with an own coarser frequency (take contract, transport, storage) and split problems: identical problems for all parameter values incl. discount atoms. Irregular grids (CET/US-Eastern DST days, months): limits = rate x actual step length, holding cost and discounting follow real elapsed time, for all parameters and prices.'),
 
  'C18': ('Q2 placement/sign of symbolic duals through the real extract_output (rows identified by their support); Level-0 supergradient certificate: z3 over all injections d and all re-optimised points x\' on the real problem with the real solvers\' reported prices', '6 C18',
          'Placement: for every catalogue shape incl. split problems with unequal intervals, nodes that become active later and structured assets, the price reported at (node, step) is minus the dual of exactly the nodal row made of that pair\'s dispatch, for all dual values. Meaning: for seeded concrete LP portfolios and every installed LP solver, z3 shows that NO injection of any size or sign and NO feasible re-optimised point beats V + price*d (all d, not sampled d). The portfolio/price instances are finite (a real solver must produce the duals).'),
